@@ -216,6 +216,8 @@ def run(ctx):
                "readonly": rng.random() < 0.4, "audit": rng.random() < 0.3, "propagate": rng.random() < 0.5,
                "worker_instance": rng.random() < 0.5}
         cases.append({"task": gen_task(rng), "obj": ["task", "job", "submitter", "result"][i % 4], "cfg": cfg})
+        if cases[-1]["obj"] == "job" and cases[-1]["task"].get("kind") == "split":
+            cases[-1]["obj"] = "submitter"      # a split task is wrapped by the submitter: there is no plain Job to pickle
     ctx.rule = ("(task from {term task with container inputs, list task, split+combined task, numpy task, file task, C03 workflow, shell "
                 "task}) x (object kind task/job/submitter/result) x configuration grid; every case is a real cross-interpreter round trip; "
                 "distinct = distinct case spec")
